@@ -462,3 +462,109 @@ def r05_5(ctx, repo):
                        'hierarchical form, summed over individuals only')
     if n < 3:
         ctx.error(rule, 'only %d _shape implementations found (floor 3)' % n)
+
+
+# -----------------------------------------------------------------------------
+# R17.4 — the two published counts of population parameters agree
+# -----------------------------------------------------------------------------
+def r17_4(ctx, repo):
+    """`n_hierarchical_parameters(n_ids)` returns (individual-level count,
+    population-level count); the second entry is the number of entries of
+    the population block of a hierarchical parameter vector and therefore
+    equals `n_parameters()` (with n_ids the model's own number of
+    individuals).  Both are evaluated symbolically per class; wrapped models
+    contribute opaque counts."""
+    rule = 'R17.4'
+    Bw, Pw, Cw = sp.symbols('B_wrapped P_wrapped C_covariate', positive=True)
+    POPC = sp.Symbol('POPC', positive=True)
+    NI = sp.Symbol('n_ids', positive=True)
+    MASK = 'self._fixed_params_mask'
+
+    class L(Lifter):
+        def ev(self, n, env, fn_, depth, owner):
+            if U(n) == MASK:
+                return Opaque('mask')
+            return super().ev(n, env, fn_, depth, owner)
+
+        def _call(self, n, env, fn_, depth, owner):
+            f = U(n.func)
+            if f.endswith('_population_model.n_hierarchical_parameters'):
+                return Tup([Bw, Pw])
+            if f.endswith('_population_model.n_parameters'):
+                return Pw
+            if f.endswith('_covariate_model.n_parameters'):
+                return Cw
+            if f in ('np.sum', 'np.count_nonzero') and n.args:
+                v = self.ev(n.args[0], env, fn_, depth, owner)
+                if isinstance(v, Opaque) and v.what == 'mask':
+                    return POPC
+            if f == 'int' and n.args:
+                return self.ev(n.args[0], env, fn_, depth, owner)
+            return super()._call(n, env, fn_, depth, owner)
+    n = 0
+    for cls in sorted(repo.subclasses('PopulationModel', strict=True)):
+        c = repo.cls(cls)
+        fh = c.methods.get('n_hierarchical_parameters')
+        if fh is None or repo.is_abstract(fh):
+            continue
+        kp, fp = repo.resolve(cls, 'n_parameters')
+        if fp is None:
+            continue
+        construct = '%s.n_hierarchical_parameters' % cls
+        where = repo.loc(fh, cls, fh.name)
+        verdicts = []
+        for mask_none in (True, False):
+            vals = []
+            for fn_, owner in ((fh, cls), (fp, kp)):
+                lf = L(repo, cls, flags={MASK + ' is None': mask_none})
+                env = {'n_ids': NI, 'self._n_ids': NI,
+                       'self._n_dim': sp.Symbol('n_dim', positive=True),
+                       'self._n_pop': Pw,
+                       'self._n_covariates': sp.Symbol('n_cov',
+                                                       positive=True)}
+                if cls == 'ReducedPopulationModel':
+                    env['self._n_parameters'] = Pw
+                else:
+                    env['self._n_parameters'] = sp.Symbol(
+                        'n_parameters_field', positive=True)
+                if cls == 'HeterogeneousModel':
+                    env['self._n_parameters'] = NI * env['self._n_dim']
+                try:
+                    vals.append(lf.run(fn_, env))
+                except Unsupported as e:
+                    vals.append(('unsupported', str(e)))
+            h, p_ = vals
+            if isinstance(h, tuple) and h and h[0] == 'unsupported' or \
+                    isinstance(p_, tuple) and p_ and p_[0] == 'unsupported':
+                verdicts.append(('skip', None))
+                continue
+            if not (isinstance(h, (tuple, Tup)) and len(h) == 2
+                    and isinstance(h[1], sp.Expr)
+                    and isinstance(p_, sp.Expr)):
+                verdicts.append(('skip', None))
+                continue
+            d = sp.expand(h[1] - p_)
+            verdicts.append(('ok', None) if d == 0 else ('bad', (h[1], p_)))
+            if cls != 'ReducedPopulationModel':
+                break
+        if all(v[0] == 'skip' for v in verdicts):
+            ctx.note(rule, '%s: counts not evaluated (loop over sub-models)'
+                     % construct)
+            continue
+        n += 1
+        bad = [v for v in verdicts if v[0] == 'bad']
+        if bad:
+            got, want = bad[0][1]
+            ctx.violation(
+                rule, where, construct, 'population count',
+                'n_hierarchical_parameters reports `%s` population-level '
+                'parameters but n_parameters() is `%s`: the population block '
+                'of a hierarchical vector, the names and the gradient have '
+                'different lengths whenever the two differ (e.g. a subset '
+                'of parameters depends on covariates, or parameters are '
+                'fixed)' % (got, want))
+        else:
+            ctx.ok(rule, where, construct,
+                   'second entry equals n_parameters()')
+    if n < 5:
+        ctx.error(rule, 'only %d classes evaluated (floor 5)' % n)
